@@ -361,6 +361,7 @@ class Report:
         self.proof = None
         self._distinct = set()
         self.notes = {}
+        self.write_evidence = True
 
     def rng(self, salt=''):
         return random.Random(seed_for(self.prop + salt, self.seed))
@@ -452,8 +453,9 @@ class Report:
         ev = {'property_id': self.prop, 'tier': self.tier, 'seed': self.seed, 'level': level, 'coverage': cov,
               'assumptions': self.assumptions, 'wall_s': round(time.time() - self.t0, 2), 'violations': nviol,
               'known_findings_seen': sorted(seen_known)}
-        with open(os.path.join(VERIF, 'evidence', self.prop + '.json'), 'w') as f:
-            json.dump(ev, f, indent=1, default=str)
+        if self.write_evidence:
+            with open(os.path.join(VERIF, 'evidence', self.prop + '.json'), 'w') as f:
+                json.dump(ev, f, indent=1, default=str)
         for l in lines:
             print(l)
         print('%s %s: %d evaluations, %d distinct non-trivial, obligations %s/%s, %d violation(s), %.1fs' % (
